@@ -256,3 +256,28 @@ contract(A + "optimize", params=dict(task="Task", mode="opt[str]", workers="opt[
               "all(not better(task.minmax, a.cost, result.best_solution.cost) for a in result.evolution[len(result.rates)].agents)"),
          ],
          properties=["C01", "C02", "C03", "C04", "C06", "C07", "C08", "C10", "C15", "C18"])
+
+# ---- regrouping (C10): groups are copies of consecutive slices, plus the residual group of the last N mod g agents ----------------
+RES = "(self._config.population_size % n_groups)"
+contract(A + "_generate_group_population", params=dict(n_groups="int", n_agents="int", with_residual="opt[bool]"),
+         returns="list[list[Agent]]", locals=dict(groups="list[list[Agent]]"),
+         cases=[{"with_residual": "bool"}],
+         requires=["self._config is not None", "n_groups >= 1", "n_agents >= 0", "n_groups * n_agents <= len(self._population)",
+                   RES + " <= len(self._population)"],
+         invariants={"loop1": [
+             "len(groups) == loop1_i",
+             "groups is not self._population",
+             "all(len(groups[g]) == n_agents for g in range(loop1_i))",
+             "all(all(view_eq(groups[g][t], self._population[g * n_agents + t]) for t in range(n_agents)) for g in range(loop1_i))",
+             "all(groups[g] is not self._population and groups[g] is not groups for g in range(loop1_i))",
+         ]},
+         ensures=[
+             ("number-of-groups", "len(result) == n_groups + (1 if (with_residual and " + RES + " != 0) else 0)"),
+             ("full-groups", "all(len(result[g]) == n_agents for g in range(n_groups))"),
+             ("copies-of-consecutive-slices",
+              "all(all(view_eq(result[g][t], self._population[g * n_agents + t]) for t in range(n_agents)) for g in range(n_groups))"),
+             ("residual-group-is-the-tail", "implies(with_residual and " + RES + " != 0, len(result[n_groups]) == " + RES + " and"
+              " all(view_eq(result[n_groups][t], self._population[len(self._population) - " + RES + " + t]) for t in range(" + RES + ")))"),
+             ("population-untouched", "unchanged(self._population) and heap_unchanged()"),
+         ],
+         properties=["C10"])
